@@ -18,6 +18,13 @@ CLAIMED = {
              "conversions and the full match table on every check.",
         technique="Coq proof (finite sweep lifted to forall) + exhaustive model/implementation correspondence",
         ref="DESIGN.md section 6, C18"),
+    "C08": dict(
+        text="Kernel-checked theorems: the masks/shifts of Header::parse, the eight header_buffer peeks, get_flags and the "
+             "PacketFlag set/remove/has algebra agree with RFC 1035 4.1.1 bit positions (defined independently by testbit/div/mod) "
+             "for all 65536 flag words, all 128x128 flag-set pairs and every named opcode x rcode x flag subset, with ids and "
+             "counts symbolic; parse(write h) = h. Tied to /repo by an exhaustive correspondence run of the same finite domains.",
+        technique="Coq proof (vm_compute sweeps lifted to forall + algebraic lemmas on big-endian fields) + exhaustive correspondence",
+        ref="DESIGN.md section 6, C08"),
 }
 
 PENDING_REASON = "not claimed yet: model, theorems and correspondence slice for this property are still being built (see DESIGN.md section 10)"
